@@ -31,6 +31,11 @@ def check(run):
     run.attempt(exclprov, run, p)
     run.attempt(cleanset, run, p)
     run.attempt(deadattr, run, p)
+    # the generated test looks at the files the command wrote: every path expression written into the script denotes the original
+    # path (else the test fails with nothing changed, and the real output is never compared)
+    from .common import shared_rule
+    from .c11 import joinrepr
+    shared_rule(run, joinrepr, (run, p), 'C11-JOINREPR', 'C12-JOINREPR', ' (so the test compares the file the command wrote)')
     from .common import gotcha_rule
     n = gotcha_rule(run, 'C12-WHOLESTR', p, ['tdda.referencetest.gentest', 'tdda.referencetest.utils', 'tdda.referencetest.diffrex'],
                     'names and machine-specific strings are handled whole: no constant written ("text") - a one-element tuple without '
